@@ -40,6 +40,8 @@ type Contract struct {
 	Loops    []*Clause
 	AtCalls  []*Clause
 	Tracks   []*Clause
+	Preserves []*Clause
+	Stables  []*Clause
 	Modifies []string
 	HasMod   bool
 	Trusted  bool // from a .spec file (assumed, never verified)
@@ -78,7 +80,7 @@ func newContractSet() *ContractSet {
 	return &ContractSet{Funcs: map[string]*Contract{}, Preds: map[string]*Pred{}, Ghosts: map[string]string{}}
 }
 
-var clauseRe = regexp.MustCompile(`^(requires|ensures|invariant|decreases|atcall|track|modifies|opt|loop|axiom|pred|ghost|func|lemma)\b(\[[A-Za-z0-9, ]*\])?\s*(.*)$`)
+var clauseRe = regexp.MustCompile(`^(stable|preserves|requires|ensures|invariant|decreases|atcall|track|modifies|opt|loop|axiom|pred|ghost|func|lemma)\b(\[[A-Za-z0-9, ]*\])?\s*(.*)$`)
 
 func (cs *ContractSet) parseFile(path string, trusted bool) error {
 	data, err := os.ReadFile(path)
@@ -179,6 +181,32 @@ func (cs *ContractSet) parseFile(path string, trusted bool) error {
 				}
 				cur.Opts[k] = v
 			}
+		case "stable":
+			if cur == nil {
+				return fmt.Errorf("%s:%d: stable outside func", path, s.line)
+			}
+			c2, err := mk("ensures", "old("+rest+") ==> ("+rest+")")
+			if err != nil {
+				return err
+			}
+			c2.Index = len(cur.Ensures) + 1
+			cur.Ensures = append(cur.Ensures, c2)
+			c3, _ := mk("ensures", rest)
+			cur.Stables = append(cur.Stables, c3)
+		case "preserves":
+			if cur == nil {
+				return fmt.Errorf("%s:%d: preserves outside func", path, s.line)
+			}
+			c1, err := mk("requires", rest)
+			if err != nil {
+				return err
+			}
+			c1.Index = len(cur.Requires) + 1
+			cur.Requires = append(cur.Requires, c1)
+			c2, _ := mk("ensures", rest)
+			c2.Index = len(cur.Ensures) + 1
+			cur.Ensures = append(cur.Ensures, c2)
+			cur.Preserves = append(cur.Preserves, c2)
 		case "requires", "ensures":
 			if cur == nil {
 				return fmt.Errorf("%s:%d: %s outside func", path, s.line, kw)
